@@ -161,6 +161,42 @@ func runC14(c *fw.Ctx) {
 	w.Ent, w.Reg, w.Stream, w.Bank, w.Staking = 40, 25, 15, 15, 5
 	w.GovPct, w.LowGasPct, w.BadSeqPct, w.NestedPct = 0, 6, 6, 12
 	nb := r.Range(40, 60)
+	if r.Chance(30) {
+		// an enterprise parameter change (mostly of the denomination) that executes in the very block
+		// in which the chain's first order sits in the accepted queue: decisions are delivered in the
+		// block that submits the proposal, the next BeginBlock tallies, that block's EndBlock executes
+		// the change, the following BeginBlock mints
+		if e.Last == nil {
+			e.Block(time.Second)
+		}
+		obs := e.Last
+		if len(obs.Whitelist) > 0 {
+			if pa, ok := g.acctByAddr(obs.Whitelist[r.Intn(len(obs.Whitelist))]); ok {
+				e.Block(time.Second, g.plan(pa, nil, &enttypes.MsgUndPurchaseOrder{Purchaser: pa.Addr.String(), Amount: sdk.NewInt64Coin(obs.EntParams.Denom, int64(r.Range(1, 1_000_000)))}))
+				var along []*TxPlan
+				for _, id := range e.Last.RaisedQ {
+					for _, s := range g.signers(e.Last) {
+						along = append(along, g.plan(s, nil, &enttypes.MsgProcessUndPurchaseOrder{PurchaseOrderId: id, Decision: enttypes.StatusAccepted, Signer: s.Addr.String()}))
+					}
+				}
+				p := e.Last.EntParams
+				what := "ent params in the accepted window"
+				if r.Chance(70) {
+					p.Denom = []string{lab.Denom2, "other"}[r.Intn(2)]
+					what += " denom=" + p.Denom
+				} else {
+					p.MinAccepts, p.EntSigners = 1, e.L.Accts[r.Intn(3)].Addr.String()
+				}
+				if len(e.Last.RaisedQ) > 0 {
+					queuedParamChange = true
+					c.Count("param_changes_in_accepted_window", 1)
+				}
+				e.GovAlong(what, along, &enttypes.MsgUpdateParams{Authority: lab.GovAuthority(), Params: p})
+				e.Block(time.Second)
+				e.Block(time.Second)
+			}
+		}
+	}
 	for b := 0; b < nb && e.Halted == ""; {
 		step := r.Range(1, 4)
 		RunMixed(e, g, w, step)
